@@ -74,7 +74,7 @@ def one(ctx, C, Pc, tol, kind, meta):
 
 
 def run(tier, seed):
-    ctx = core.Ctx(PROP, tier, seed, "translation_validation", ["C05"])
+    ctx = core.Ctx(PROP, tier, seed, "translation_validation", ["C05", "C05b"])
     ctx.axioms = core.audit(ctx.modules)
     import pyqsp.completion as C
     rng = ctx.rng
@@ -83,10 +83,14 @@ def run(tier, seed):
         for _ in range(reps):
             ph, style = P.corner_phases(rng, n)
             Pc = P.corner_poly(ph)
-            tol = float(rng.choice([1e-6, 1e-6, 1e-4, 1e-8]))
+            tol = float(rng.choice([1e-6, 1e-6, 1e-4, 1e-8, 1e-10, 1e-12, 1e-14]))
             r = rng.random()
-            if r < 0.7:
+            if r < 0.6:
                 kind = "achievable"
+            elif r < 0.7:
+                kind = "not-a-corner:barely"          # |P(+-1)| = 1 - 1e-7 : only a tight tol can tell
+                Pc = Pc * (1 - 1e-7)
+                tol = float(rng.choice([1e-9, 1e-10]))
             elif r < 0.85:
                 kind = "not-a-corner:scaled"
                 Pc = Pc * float(rng.choice([0.5, 0.8, 1.3]))
@@ -102,7 +106,7 @@ def run(tier, seed):
 def replay(path):
     import json
     c = json.load(open(path))
-    ctx = core.Ctx(PROP, "quick", c.get("seed", 0), "translation_validation", ["C05"])
+    ctx = core.Ctx(PROP, "quick", c.get("seed", 0), "translation_validation", ["C05", "C05b"])
     import pyqsp.completion as C
     Pc = [complex(a, b) for a, b in zip(c["poly_re"], c["poly_im"])]
     out = one(ctx, C, Pc, c["tol"], c.get("kind", "?"), {})
